@@ -52,7 +52,7 @@ class C12:
     assumptions = ['inputs that mention __DATE__, __TIME__ or __TIMESTAMP__ are excluded; runs in which a stage dies from a signal are not compared (counted; C13 is their subject)']
 
     def budget(self, tier):
-        return 900 if tier == 'quick' else 20000
+        return 900 if tier == 'quick' else 10000
 
     def prepare(self, tree, tier):
         top = os.path.dirname(tree.dir)
